@@ -1239,6 +1239,13 @@ NOT proved (`write_read_exact` for the whole file stays `_partial`):
   `parseFloat (sh.rat q) = .ok q` on number texts);
 * the numeric header lines (`#OFFSET`, `#SAMPLESTART`, `#SAMPLELENGTH`, bpm values): they depend on Python's float
   `repr`; the assumption to be carried is `parseFloat (show q) = .ok q` for the renderer `show` (a parameter, as in C01).
+* (proved since, round 5: `changesOf_domain`, `gridCompatible_of_96ths`, `write_read_exact_written`, `write_read_exact_grid96` — the
+  tempo hypotheses are decidable conditions on the written header; `tie_later_wins` for `#BPMS` entries on one beat;
+  the tolerance regime `written_beat_tolerance` / `written_time_tolerance`; the file entry point `write_file_read_file`;
+  counterexamples for the hypotheses that cannot be dropped);
+* not proved: that tempo rows at one offset in memory are written so that the later row is in force (the link from
+  `toTimingMap` with tied rows to `effectivePairs` of the written pairs — compared on every tied case by (S)); the time
+  bound for a row and its object separated by a tempo change; `'\r' ∉ renderWritten` from the inputs.
 The check evaluates the whole composition on every case (S).
 -/
 
